@@ -148,7 +148,25 @@ FamCyc ==
             Tup("D","d","c", Id("v")), Tup("D","d","e", Id("z")),
             Tup("D","d","f", Id("u")), Tup("D","d","g", Id("u")), Tup("D","d","ng", Id("u")) >>]
 
-Fams == [cyc |-> FamCyc, ttu2 |-> FamTtu2, diam |-> FamDiam, rw |-> FamRw, nest |-> FamNest, plain |-> FamPlain, rec |-> FamRec, strictx |-> FamStrictX, alias |-> FamAlias]
+\* operands declared most-expensive-first (traverse before includes, a negation or a parenthesised group before a plain
+\* relation): || and && are commutative, so whatever order an implementation evaluates them in, the answers are those of RefSem
+FamOrd ==
+  [cfg |-> [
+     U |-> [x \in {} |-> Rel(<<>>, None)],
+     G |-> [m |-> Rel(<<<<"U","">>, <<"G","m">>>>, None)],
+     D |-> [a |-> Rel(<<<<"U","">>, <<"G","m">>>>, None), b |-> Rel(<<<<"U","">>, <<"G","m">>>>, None), par |-> Rel(<<<<"D","">>>>, None),
+            tb  |-> Permit(Or(<<TTU("par", "a"), CSS("b")>>)),                                          \* par.a || b
+            nba |-> Permit(And(<<Or(<<Not(CSS("b"))>>), CSS("a")>>)),                                   \* !b && a
+            gab |-> Permit(Or(<<And(<<Or(<<CSS("a")>>), CSS("b")>>), CSS("a")>>)),                      \* (a && b) || a
+            tnb |-> Permit(And(<<Or(<<TTU("par", "b")>>), Not(CSS("a")), CSS("b")>>)),                  \* par.b && !a && b
+            onb |-> Permit(Or(<<Not(CSS("a")), TTU("par", "b"), CSS("b")>>))]],                         \* !a || par.b || b
+   U |-> << Tup("D","d","a", Id("u")), Tup("D","d","b", SS("G","g","m")), Tup("G","g","m", Id("u")),
+            Tup("D","d","par", SS("D","p","")), Tup("D","p","a", Id("u")), Tup("D","p","b", SS("G","g","m")),
+            Tup("D","d","b", Id("u")), Tup("D","d","a", SS("G","g","m")) >>,
+   Q |-> << Tup("D","d","tb", Id("u")), Tup("D","d","nba", Id("u")), Tup("D","d","gab", Id("u")),
+            Tup("D","d","tnb", Id("u")), Tup("D","d","onb", Id("u")), Tup("D","d","tb", Id("w")) >>]
+
+Fams == [ord |-> FamOrd, cyc |-> FamCyc, ttu2 |-> FamTtu2, diam |-> FamDiam, rw |-> FamRw, nest |-> FamNest, plain |-> FamPlain, rec |-> FamRec, strictx |-> FamStrictX, alias |-> FamAlias]
 \* the alias family's namespaces carry a '-' and cannot be record fields
 CfgOf(f) == IF f = "alias" THEN [n \in {"x", "a", "a-b"} |-> [y \in {} |-> Rel(<<>>, None)]] ELSE Fams[f].cfg
 W_2 == <<1, 100>>
@@ -217,6 +235,7 @@ Witness == CASE FamName = "rw"    -> {{2, 8}, {1, 3, 4, 5, 6}, {2, 3, 5, 6}}
              [] FamName = "alias" -> {{1, 2, 3, 4}, {1, 2, 5, 6}}
              [] FamName = "rec"   -> {{1, 2, 3}, {1, 3, 6, 9}}
              [] FamName = "nest"  -> {{2, 3, 4, 6}, {1, 3, 6}, {2, 4, 6}}    \* p5 denied through b && c only; p1 denied through c; b without c
+             [] FamName = "ord"   -> {{2, 3, 4, 6}, {1, 4, 5}, {3, 4, 6, 7}}
              [] FamName = "ttu2"  -> {{1, 2, 3, 4}, {1, 2, 4}, {1, 2, 3, 4, 5, 6, 7}}
              [] FamName = "diam"  -> {{1, 2, 3, 4, 5, 6}, {1, 4, 5, 6, 8}, {1, 2, 3, 4, 5, 6, 9}}
              [] OTHER -> {}
